@@ -183,8 +183,18 @@ func race(file string, timeoutMs int, needAgree int, only []string) (SolverAnswe
 	var all []SolverAnswer
 	var best SolverAnswer
 	counts := map[string]int{}
+	start := time.Now()
+	var grace <-chan time.Time
 	for i := 0; i < n; i++ {
-		a := <-ch
+		var a SolverAnswer
+		select {
+		case a = <-ch:
+		case <-grace:
+			// a second back end was asked to agree (thorough tier) and has not answered within the grace
+			// period after the first decisive answer: the answer stands with the agreement it has
+			cancel()
+			return best, all
+		}
 		if a.Status == "cancelled" {
 			continue
 		}
@@ -193,6 +203,13 @@ func race(file string, timeoutMs int, needAgree int, only []string) (SolverAnswe
 			counts[a.Status]++
 			if best.Status == "" || best.Status != "sat" && best.Status != "unsat" {
 				best = a
+			}
+			if needAgree > 1 && grace == nil {
+				g := 3 * time.Since(start)
+				if g < 5*time.Second {
+					g = 5 * time.Second
+				}
+				grace = time.After(g)
 			}
 			if counts[a.Status] >= needAgree {
 				best = a
